@@ -24,6 +24,7 @@ RULE = ("complete grid of generator programs {raise before yield, no yield, yiel
         "yielded and the exit path interacted with it; distinct = program x outcome x suspension variant")
 RULE += (' Also: decorator form (the manager decorating an async function whose body has the outcome), against contextlib.asynccontextmanager used as a decorator.')
 RULE += (' Also: one manager object used as a decorator (twice) and then entered directly.')
+RULE += (' Also: generator functions called with keyword arguments named func/self/args/kwds/gen/cls.')
 ASSUMPTIONS = ["contextlib.asynccontextmanager of the running interpreter is the reference",
                "__cause__/__context__ chains and messages are not compared"]
 EXHAUSTIVE = {"quick": True, "thorough": True}
